@@ -27,6 +27,7 @@ type poolMon struct {
 	problems []string
 	gets     int
 	puts     int
+	wins     [][]byte // windows released to their pools (poisoned by the hook)
 }
 
 func (m *poolMon) hook(kind string, obj any) {
@@ -55,8 +56,30 @@ func (m *poolMon) hook(kind string, obj any) {
 			for i := range p {
 				p[i] = 0xDB
 			}
+			m.wins = append(m.wins, p)
 		}
 	}
+}
+
+// forgetWindows / windowsIntact: the windows released since forgetWindows are still exactly as the hook left them
+// (only meaningful while nobody can have taken them out of their pool again)
+func (m *poolMon) forgetWindows() {
+	m.mu.Lock()
+	m.wins = nil
+	m.mu.Unlock()
+}
+
+func (m *poolMon) windowsIntact() (released int, intact bool) {
+	m.mu.Lock()
+	defer m.mu.Unlock()
+	for _, w := range m.wins {
+		for _, b := range w {
+			if b != 0xDB {
+				return len(m.wins), false
+			}
+		}
+	}
+	return len(m.wins), true
 }
 
 func (m *poolMon) add(format string, a ...any) {
@@ -194,6 +217,31 @@ func execOwn(args []string) string {
 				break
 			}
 		}
+		// the connection is ended by a Close frame sent through a generic write API (which one depends on the case):
+		// its payload — with a status the library replaces on the wire — is the caller's as well
+		cp := []byte{0x03, 0xe7, 'b', 'y', 'e'}
+		if len(args) > 2 && args[2] == "1" {
+			cp = []byte{0x00, 0x00}
+		}
+		cq := append([]byte(nil), cp...)
+		switch args[1] + args[2] {
+		case "s0":
+			_ = sender.WriteMessage(gws.OpcodeCloseConnection, cp)
+		case "s1":
+			done := make(chan error, 1)
+			sender.WriteAsync(gws.OpcodeCloseConnection, cp, func(e error) { done <- e })
+			<-done
+		case "c0":
+			_ = sender.Writev(gws.OpcodeCloseConnection, cp[:2], cp[2:])
+		default:
+			b := gws.NewBroadcaster(gws.OpcodeCloseConnection, cp)
+			_ = b.Broadcast(sender)
+			drainAsync(sender)
+			_ = b.Close()
+		}
+		if !bytes.Equal(cp, cq) {
+			mon.add("close-payload-modified")
+		}
 		_ = s.WriteClose(1000, nil)
 		sh.WaitClosed(time.Second)
 		ch.WaitClosed(time.Second)
@@ -303,7 +351,8 @@ func execOwn(args []string) string {
 			if err != nil {
 				return "handshake-failed"
 			}
-			go s.ReadLoop()
+			sLoop := make(chan struct{})
+			go func() { s.ReadLoop(); close(sLoop) }()
 			go c.ReadLoop()
 			base := r.Bytes(600)
 			var want []string
@@ -312,6 +361,7 @@ func execOwn(args []string) string {
 				_ = s.WriteMessage(gws.OpcodeBinary, p)
 				want = append(want, "msg:2:"+hx(p))
 			}
+
 			if !waitEvents(ch, 1+len(want), 3*time.Second) {
 				mon.add("conn%d-not-all-delivered", k)
 			}
@@ -322,8 +372,29 @@ func execOwn(args []string) string {
 					break
 				}
 			}
+			mon.forgetWindows()
 			_ = c.WriteClose(1000, nil)
 			ch.WaitClosed(time.Second)
+			select {
+			case <-sLoop:
+			case <-time.After(3 * time.Second):
+				mon.add("conn%d-server-readloop-did-not-return", k)
+			}
+			// late calls on the finished connection: rejected, and what it has released to the pools is no longer its own
+			// (nobody else can have taken it yet: no connection is being set up at this moment)
+			if e := s.WriteFile(gws.OpcodeBinary, bytes.NewReader(r.Bytes(9000))); retClass(e) != "closed" {
+				mon.add("late-writefile-on-finished-connection-not-rejected:%s", retClass(e))
+			}
+			_ = s.WriteMessage(gws.OpcodeBinary, r.Bytes(3000))
+			lb := gws.NewBroadcaster(gws.OpcodeBinary, r.Bytes(3000))
+			_ = lb.Broadcast(s)
+			drainAsync(s)
+			_ = lb.Close()
+			if n, ok := mon.windowsIntact(); !ok {
+				mon.add("released-window-modified-by-its-former-owner")
+			} else if n == 0 {
+				mon.add("no-window-was-released")
+			}
 			time.Sleep(2 * time.Millisecond)
 		}
 	case "broadcaster": // own broadcaster <closeEarly>: shared frames are released exactly once, after Close and the last pending send
